@@ -96,6 +96,65 @@ impl Rat {
     }
 }
 
+// ---------------------------------------------------------------------------------------------
+// 256-bit helpers for the one quotient whose numerator leaves i128: fee * unspent / quote
+
+/// (hi, lo) of a * b
+fn mul_u128(a: u128, b: u128) -> (u128, u128) {
+    let (a1, a0) = (a >> 64, a & u64::MAX as u128);
+    let (b1, b0) = (b >> 64, b & u64::MAX as u128);
+    let p00 = a0 * b0;
+    let p01 = a0 * b1;
+    let p10 = a1 * b0;
+    let p11 = a1 * b1;
+    let mid = (p00 >> 64) + (p01 & u64::MAX as u128) + (p10 & u64::MAX as u128);
+    let lo = (p00 & u64::MAX as u128) | (mid << 64);
+    let hi = p11 + (p01 >> 64) + (p10 >> 64) + (mid >> 64);
+    (hi, lo)
+}
+
+/// floor((hi, lo) / d) and remainder, by binary long division; None if the quotient exceeds u128
+fn div_256(hi: u128, lo: u128, d: u128) -> Option<(u128, u128)> {
+    if d == 0 || hi >= d {
+        return None;
+    }
+    let mut rem: u128 = hi;
+    let mut q: u128 = 0;
+    for i in (0..128).rev() {
+        let carry = rem >> 127;
+        rem = (rem << 1) | ((lo >> i) & 1);
+        if carry == 1 || rem >= d {
+            rem = rem.wrapping_sub(d);
+            q |= 1 << i;
+        }
+    }
+    Some((q, rem))
+}
+
+/// acceptable integer values of amount * part / whole: half-away rounding, and the next lower unit
+/// only on an exact half-unit tie — in exact 256-bit arithmetic
+pub fn pro_rata_nearest(amount: u128, part: u128, whole: u128) -> Option<Vec<u128>> {
+    let (hi, lo) = mul_u128(amount, part);
+    let (q, rem) = div_256(hi, lo, whole)?;
+    // compare 2 * rem with whole without overflow
+    let twice_ge = rem >= whole - rem;
+    let tie = rem == whole - rem;
+    let r = if twice_ge { q.checked_add(1)? } else { q };
+    if tie && r > 0 {
+        Some(vec![r, r - 1])
+    } else {
+        Some(vec![r])
+    }
+}
+
+pub fn pro_rata_is_tie(amount: u128, part: u128, whole: u128) -> bool {
+    let (hi, lo) = mul_u128(amount, part);
+    match div_256(hi, lo, whole) {
+        Some((_, rem)) => rem == whole - rem,
+        None => false,
+    }
+}
+
 /// Parse the unambiguous decimal grammar `-?digits(.digits)?`. Anything else => None
 /// (the alphabets contain no string whose parse is a matter of taste).
 pub fn parse_dec(s: &str) -> Option<Rat> {
@@ -497,6 +556,10 @@ mod tests {
         assert!(within_precision(parse_dec("1.50").unwrap(), 1));
         assert!(!within_precision(parse_dec("1.55").unwrap(), 1));
         assert!(is_canonical_uuid("ab5f5a62-f6fc-46d1-aa84-51ccc51ec367"));
+        assert_eq!(pro_rata_nearest(3, 5, 6), Some(vec![3, 2]));
+        assert_eq!(pro_rata_nearest(9, 36, 45), Some(vec![7]));
+        assert_eq!(pro_rata_nearest(30000000000000000000, 2000000000000000000004, 3000000000000000000007), Some(vec![20000000000000000000]));
+        assert_eq!(pro_rata_nearest(u128::MAX, u128::MAX, u128::MAX), Some(vec![u128::MAX]));
         assert!(!is_canonical_uuid("AB5F5A62-F6FC-46D1-AA84-51CCC51EC367"));
     }
 }
